@@ -27,8 +27,8 @@ CHECKS["C13"] = dict(
 CHECKS["C15"] = dict(
     text="Size-symbolic QF_LIA queries over the lowered IR of every generated kernel: two distinct cells of the iteration box never touch an address one of them writes (grid sizes and cell "
          "indices are integer solver variables, so this part is unbounded in the sizes); call-site aliasing queries over the logged memory extents of every kernel call of the enumerated "
-         "simulator/solver configurations; serial marker loop of spreading as a syntactic side condition.",
-    technique="z3 QF_LIA over access sets extracted from the pystencils backend IR (sizes and cells symbolic) + alias queries per traced call site",
+         "simulator/solver configurations (intra-kernel, and across the compiled kernels of one public wrapper call for memory passed under two argument names); serial marker loop of spreading as a syntactic side condition over every code variant the generator produces for marker counts 1..1100 and around 2^11..2^13.",
+    technique="z3 QF_LIA over access sets extracted from the pystencils backend IR (sizes and cells symbolic) + alias queries per traced call site, at the level of the compiled kernels and of the public wrappers (memory passed under two argument names); replay: reversed cell order / de-aliased twin call / 1-thread vs all-thread spreading",
     design="DESIGN.md section 5 C15")
 
 CHECKS["C12"] = dict(
